@@ -23,7 +23,7 @@ META = {
         "diag(l1, x, x) (resp. the planar / biaxial states) with the transverse stress zero, resp. P11 - l3/l1 P33",
     ],
     "outside": ["uniqueness / convergence of the Newton iteration", "ramp subdivision of a real solve", "tri6 / tet10 with curved edges beyond the template rule's exactness"],
-    "assumptions": ["root-finder contract fun(x) = 0"],
+    "assumptions": ["root-finder contract: a successful attempt returns x with fun(x) = 0; an attempt may fail (success=False), then the result of the retry counts"],
 }
 
 Q = 1.0 / 16
@@ -192,7 +192,7 @@ def case_loadcase(ctx, kind, which, axes=(0, 1), sym=True):
         ctx.equal("reaction_on_moved_face_%d_is_stress_times_reference_area" % c, np.asarray(f)[c], Pbar[c, c] * area, tol=1e-9)
 
 
-def case_view(ctx, mode, incompressible=False, explicit=False):
+def case_view(ctx, mode, incompressible=False, explicit=False, first_fails=False):
     """ViewMaterial: the root finder is a contract stub.  To avoid an equality assumption the roles are swapped: the
     transverse stretch x is a free variable and the bulk modulus is DEFINED such that x is the root (P33 is linear
     in bulk); so every (stretch, root) pair is covered and 'fun(x) = 0' becomes an obligation, not an assumption."""
@@ -227,7 +227,15 @@ def case_view(ctx, mode, incompressible=False, explicit=False):
     calls = []
     orig = so.root
 
+    attempts = []
+
     def root_stub(fun, x0, **kw):
+        attempts.append(1)
+        if first_fails and len(attempts) == 1:
+            # root-finder contract: an attempt may report failure (success=False) with a meaningless x; the library then retries
+            # from another start value and must use the result of the attempt that succeeded
+            junk = np.array([x + ctx.var("junk", 0.2, 0.4)], dtype=object if ctx.sym else float)
+            return types.SimpleNamespace(success=False, x=junk)
         if ctx.sym:
             xs = np.array([x], dtype=object)
             calls.append((xs, np.asarray(fun(xs)).reshape(-1)))
@@ -280,5 +288,6 @@ def cases(tier):
         out.append(("view", case_view, {"mode": mode, "max_paths": 16}))
         out.append(("view", case_view, {"mode": mode, "incompressible": True, "max_paths": 16}))
         out.append(("view", case_view, {"mode": mode, "explicit": True, "max_paths": 16}))
+        out.append(("view", case_view, {"mode": mode, "first_fails": True, "max_paths": 16}))
         out.append(("view", case_view, {"mode": mode, "incompressible": True, "explicit": True, "max_paths": 16}))
     return out
